@@ -5,6 +5,8 @@ import Sqfs.Proofs.ObjKinds
 import Sqfs.Proofs.C19Ops
 import Sqfs.Proofs.C19Frame
 import Sqfs.Proofs.C19Readers
+import Sqfs.Proofs.RbTree
+import Sqfs.Proofs.C19Units
 /-!
 C19 — copies of library objects are well-formed, equivalent, independent and safely destroyable.
 
@@ -351,6 +353,94 @@ theorem copy_equiv_metaReader (fix : Bool) (f : MetaReader.File) (unc : MetaRead
 `sqfs_id_table_id_to_index` leave (so the boundary `used >= 0xFFFF` is reached by a real history) -/
 theorem table_fill_is_adds (n : Nat) (hn : n ≤ idLimit) : idAdds Arr.empty (List.range n) = idFill n := idFill_eq_adds n hn
 
+/-! ### the generic containers under the hooks: `rbtree_copy`, `array_init_copy`, `str_table_copy` -/
+
+open Sqfs.Rb in
+/-- `rbtree_copy_equiv`: `rbtree_copy` (`copy_node`: fresh `calloc`ed node, `memcpy` of `sizeof(*n) + key_size_padded +
+value_size` bytes, children copied recursively) of any tree whose nodes have the layout `mknode` gives them
+(`value_offset = key_size_padded`, `key_size_padded + value_size` bytes of `data[]`), for every key and value size, every
+tree shape and colouring, wherever the nodes live:
+* succeeds and builds, in **fresh** node memory only (`[st.next, st'.next)`), a tree that is node for node, colour for
+  colour, byte for byte the original (`Shape … root' t` — the same tree value `t`: key bytes, padding, every value byte);
+* leaves every node of the original as it was;
+* so `rbtree_lookup` of **every** key under every comparison function finds in the copy a node with the same
+  `value_offset` and the same `data[]` as in the original — in particular the same `value_size` value bytes;
+* afterwards the two are independent: whatever is later written to any node that existed before the copy (inserts into the
+  original, rotations, recolouring, its destruction) and whatever is allocated later, the copy still represents `t` and
+  answers every lookup as before; and whatever is written to the copy's nodes, the original still represents `t`. -/
+theorem rbtree_copy_equiv (c : Cfg) (st : Store) (root : Option Nat) (t : Tree) (fuel : Nat)
+    (hwf : WfTree c t) (hs : Shape st.cells 0 st.next root t) (hf : t.depth ≤ fuel) :
+    ∃ st' root', rbCopy c fuel st root = some (st', root') ∧ st.next ≤ st'.next ∧
+      Shape st'.cells st.next st'.next root' t ∧
+      (∀ i, i < st.next → st'.cells i = st.cells i) ∧
+      (∀ cmp key, lookupSt cmp st'.cells fuel root' key = lookupSt cmp st.cells fuel root key ∧
+        (lookupSt cmp st'.cells fuel root' key).map (valueOf c) = (lookupSt cmp st.cells fuel root key).map (valueOf c)) ∧
+      (∀ cells'' : Nat → Option Cell, (∀ i, st.next ≤ i → i < st'.next → cells'' i = st'.cells i) →
+        Shape cells'' st.next st'.next root' t ∧ ∀ cmp key, lookupSt cmp cells'' fuel root' key = t.lookup cmp key) ∧
+      (∀ cells'' : Nat → Option Cell, (∀ i, i < st.next → cells'' i = st.cells i) →
+        Shape cells'' 0 st.next root t ∧ ∀ cmp key, lookupSt cmp cells'' fuel root key = t.lookup cmp key) := by
+  have hmap := mapData_wf c t hwf
+  have core : ∃ st' root', rbCopy c fuel st root = some (st', root') ∧ st.next ≤ st'.next ∧
+      Shape st'.cells st.next st'.next root' t ∧ (∀ i, i < st.next → st'.cells i = st.cells i) := by
+    cases root with
+    | none =>
+      rw [Shape.none_inv hs]
+      exact ⟨st, none, rfl, Nat.le_refl _, .nil, fun _ _ => rfl⟩
+    | some a =>
+      obtain ⟨st', out, he, _, hlt, hfr, hsh⟩ := copyNode_spec c fuel st a t hs hf
+      rw [hmap] at hsh
+      exact ⟨st', some out, by simp [rbCopy, copyChild, he], Nat.le_of_lt hlt, hsh, hfr⟩
+  obtain ⟨st', root', he, hle, hsh, hfr⟩ := core
+  refine ⟨st', root', he, hle, hsh, hfr, ?_, ?_, ?_⟩
+  · intro cmp key
+    have h1 := lookupSt_shape cmp key fuel hsh hf
+    have h2 := lookupSt_shape cmp key fuel hs hf
+    exact ⟨by rw [h1, h2], by rw [h1, h2]⟩
+  · intro cells'' hag
+    have hsh' := hsh.congr hag
+    exact ⟨hsh', fun cmp key => lookupSt_shape cmp key fuel hsh' hf⟩
+  · intro cells'' hag
+    have hs' := hs.congr (fun i _ hi => hag i hi)
+    exact ⟨hs', fun cmp key => lookupSt_shape cmp key fuel hs' hf⟩
+
+open Sqfs.Rb in
+/-- `rbtree_built_wellformed`: the hypothesis of `rbtree_copy_equiv` holds of every tree the library can build — any
+sequence of `rbtree_insert`s into a tree made by `rbtree_init` (any key size, value size, comparison function), and such a
+tree has a representation in node memory (so the theorem is about all of them) -/
+theorem rbtree_built_wellformed (ks vs : Nat) (c : Cfg) (_hc : init ks vs = some c) (lt : List UInt8 → List UInt8 → Bool)
+    (kvs : List (List UInt8 × List UInt8)) (st : Store) :
+    WfTree c (build c lt kvs) ∧ c.keySize ≤ c.keyPad ∧ c.keyPad % ptrSize = 0 ∧
+    Shape (writeTree st (build c lt kvs)).1.cells 0 (writeTree st (build c lt kvs)).1.next (writeTree st (build c lt kvs)).2 (build c lt kvs) := by
+  obtain ⟨h1, _, h3⟩ := init_some ks vs c _hc
+  refine ⟨build_wf c lt kvs, by rw [h1, h3]; exact padOf_ge ks, by rw [h3]; exact padOf_aligned ks, ?_⟩
+  exact ((writeTree_spec (build c lt kvs) st).2.2).mono (Nat.zero_le _) (Nat.le_refl _)
+
+open Sqfs.Rb in
+/-- `copy_equiv_dirCache`: the directory reader's inode-number → reference cache (`rbtree_init(4, 8, dcache_key_compare)`)
+copied by `dir_reader_copy` → `rbtree_copy`: `sqfs_dir_reader_resolve_inum` answers for **every** inode number on the copy
+what it answers on the original — the full 64 bit reference or `SQFS_ERROR_NO_ENTRY` — whatever directory inodes the
+history loaded before the copy. -/
+theorem copy_equiv_dirCache (c : Cfg) (hc : init 4 8 = some c) (st : Store) (root : Option Nat) (t : Tree) (fuel : Nat)
+    (hwf : WfTree c t) (hs : Shape st.cells 0 st.next root t) (hf : t.depth ≤ fuel) :
+    ∃ st' root', rbCopy c fuel st root = some (st', root') ∧
+      ∀ inum, dcResolve c st'.cells fuel root' inum = dcResolve c st.cells fuel root inum := by
+  have _ := hc
+  obtain ⟨st', root', he, _, _, _, hl, _, _⟩ := rbtree_copy_equiv c st root t fuel hwf hs hf
+  exact ⟨st', root', he, fun inum => by unfold dcResolve; rw [(hl dcCmp (leBytes 4 inum)).1]⟩
+
+open Sqfs.C19U in
+/-- `array_copy_equiv`: `array_init_copy` (allocates the used part only) of an `array_t` of any element size: every later
+sequence of `array_append` / `array_get` / `array_set` / size queries is answered as on the original -/
+theorem array_copy_equiv (sz : Nat) (a : ByteArr) (ops : List ArrOp) : arrRun sz a.initCopy ops = arrRun sz a ops :=
+  arrRun_data sz ops _ _ rfl
+
+open Sqfs.C19U in
+/-- `strtable_copy_equiv`: a copied string table answers every later sequence of index / string / use-count operations as
+the original (definitional at this level: the model keeps index, bytes and use count of every bucket, which is what
+`str_table_copy` duplicates; the content is in the tie — every bucket of the real copy is compared with the model's) -/
+theorem strtable_copy_equiv (t : StrTable) (ops : List StrOp) : strRun (strCopy t) ops = strRun t ops := by
+  rw [strCopy_eq]
+
 /-! non-vacuity of the strengthened clauses -/
 
 /-- a failing allocation exists: the third allocation inside the copy of the directory reader of the example above -/
@@ -394,5 +484,15 @@ example : (idStep (idFill 0xFFFF) (.add 70000)).2 = (Sqfs.Consts.c19ErrOverflow,
   constructor
   · simp only [idStep, h1, l1, idLimit]; rfl
   · simp only [idStep, h2, l2, idLimit]; rfl
+
+
+open Sqfs.Rb in
+/-- `rbtree_copy_equiv` is about non-trivial trees: the directory cache layout (4 byte key padded to 8, 8 byte value) with
+three cached directory inodes whose references need more than 32 bits; the copy resolves inode 7 to the full reference -/
+example : ∃ c t st root, init 4 8 = some c ∧ t = build c (fun a b => dcCmp a b == .lt)
+      [(leBytes 4 5, leBytes 8 0x571f80d44), (leBytes 4 7, leBytes 8 0x123456789abc), (leBytes 4 2, leBytes 8 0x60)] ∧
+    (st, root) = writeTree Store.empty t ∧ t.depth = 2 ∧ c.keyPad = 8 ∧
+    (rbCopy c 5 st root).map (fun r => dcResolve c r.1.cells 5 r.2 7) = some (some 0x123456789abc) := by
+  refine ⟨⟨4, 8, 8⟩, _, _, _, by decide, rfl, rfl, by decide, rfl, by decide⟩
 
 end Sqfs.C19
